@@ -106,8 +106,29 @@ class SlowCachingDictLoader(CachingDictLoader):
         return self.get_source(env, template_name, context=context, **kwargs)
 
 
+class SlowCheckingLoader(SlowCachingDictLoader):
+    """... and whose up-to-date check is awaitable and suspends too (as a file-system or network loader's does)."""
+
+    def get_source(self, env: Any, template_name: str, *, context: Any = None, **kwargs: Any) -> Any:
+        from liquid2.loader import TemplateSource
+
+        src = super().get_source(env, template_name, context=context, **kwargs)
+
+        async def uptodate() -> bool:
+            import asyncio
+
+            await asyncio.sleep(0)
+            return True
+
+        return TemplateSource(src.source, src.name, uptodate, src.matter)
+
+
 def _loaders(root: str) -> dict[str, Any]:
     return {
+        # a cache at capacity (1 and 2 entries), warmed with the first task's entry template before the tasks start:
+        # a hit that is suspended in its up-to-date check while another task's loads evict the entry
+        "checking-cap1": lambda: SlowCheckingLoader(dict(TREE), capacity=1),
+        "checking-cap2": lambda: SlowCheckingLoader(dict(TREE), capacity=2),
         "caching-slow": lambda: SlowCachingDictLoader(dict(TREE)),
         "dict": lambda: DictLoader(dict(TREE)),
         "caching-dict": lambda: CachingDictLoader(dict(TREE)),
@@ -221,12 +242,63 @@ def plan(tier: str, seed: int):
     combos = [c for c in combos if len({menu[i][1] for i in c}) == 1]
     for c in combos:
         shards.append(("D", tier, seed, c))
+    lim = limited_cases(tier)
+    for lo, hi in chunks(len(lim), 8):
+        shards.append(("E", tier, seed, lo, hi))
     meta = {
-        "space_size": sum(s.size for s in sp.values()) + (len(lk) + 1) * len(ENTRIES) + nops + len(combos),
-        "subspaces": {**{s.name: s.size for s in sp.values()}, "loader-x-entry": len(lk) * len(ENTRIES), "analysis-ops": nops, "task-sets": len(combos)},
+        "space_size": sum(s.size for s in sp.values()) + (len(lk) + 1) * len(ENTRIES) + nops + len(combos) + len(lim),
+        "subspaces": {**{s.name: s.size for s in sp.values()}, "loader-x-entry": len(lk) * len(ENTRIES), "analysis-ops": nops, "task-sets": len(combos), "limited-programs": len(lim)},
         "bounds": {"data_sets": len(_STATE["data"]), "tasks": 2 if tier == "quick" else 3, "menu": len(menu)},
     }
     return shards, meta
+
+
+# ------------------------------------------------------------------ (E) the same verdict under resource limits
+
+
+def limited_cases(tier: str) -> list[tuple]:
+    """(prefix, kinds, lengths): a construct that is left by break / continue (through a partial, a tablerow, a capture,
+    a macro), followed by a loop nest, rendered under EVERY loop iteration limit up to the nest's bound and every output
+    limit at the boundaries: the asynchronous render must give the verdict of the synchronous one."""
+    from checks import c06
+
+    kinds1 = ("F", "T", "IF", "RF", "FR", "FI", "FM", "FC")
+    out: list[tuple] = []
+    for p in range(len(c06.PREFIXES)):
+        for k in kinds1:
+            out.append((p, (k,), (3,)))
+        for kk in itertools.product(kinds1 if tier != "quick" else ("F", "IF", "FR"), repeat=2):
+            out.append((p, kk, (3, 3)))
+    return out
+
+
+def check_limited(case: tuple, res: ShardResult | None) -> list[tuple[str, Any, Any, Any]]:
+    from checks import c06
+
+    p, kinds, lengths = case
+    out: list[tuple[str, Any, Any, Any]] = []
+    main, templates, data, bad = c06.build_nest(tuple(kinds), tuple(lengths))
+    if bad:
+        return out
+    psrc, ptemplates, pbound = c06.PREFIXES[p]
+    main = psrc + "/" + main
+    templates = {**templates, **ptemplates}
+    data = {**data, "its": [1, 2, 3]}
+    B = max(c06.product_bound(tuple(lengths)), pbound)
+    seen: set[str] = set()
+    for key, values in (("loop_iteration_limit", range(1, B + 3)), ("output_stream_limit", (0, 1, 5, 20, 10**6)), ("local_namespace_limit", (1, 50, 200, 10**6))):
+        for L in values:
+            s_ = c06._limited(templates, {key: L}, main, data, "sync")
+            a_ = c06._limited(templates, {key: L}, main, data, "async")
+            if res is not None:
+                res.evaluations += 2
+                res.outcomes.add(h64(list(s_)[:1] + [key]))
+                if s_[0] != "ok":
+                    res.nontrivial.add(h64([p, kinds, key, L]))
+            if s_ != a_ and key not in seen:
+                seen.add(key)
+                out.append((f"C03:sync-async-differ-under-{key}:after-prefix-{p}", {"prefix": p, "kinds": list(kinds), "lengths": list(lengths), "limit": L, "source": main}, {"sync": list(s_)}, {"async": list(a_)}))
+    return out
 
 
 # ------------------------------------------------------------------ outcome with location
@@ -363,7 +435,8 @@ def check_loader(lname: str, res: ShardResult | None, only: str | None = None) -
                     out.append((f"C03:get_template-attribute-differs:{k}", case, {"sync": sa[k]}, {"async": aa[k]}))
             up_s = sync_outcome(ts.is_up_to_date)
             up_a = async_outcome(ta.is_up_to_date_async())
-            if up_s != up_a:
+            # (an awaitable up-to-date callable can only be answered asynchronously: the synchronous check says "reload")
+            if up_s != up_a and not case["loader"].startswith("checking-"):
                 out.append(("C03:is_up_to_date-differs", case, {"sync": up_s}, {"async": up_a}))
             for mode in ("plain", "drops"):
                 dd = d if mode == "plain" else seams.wrap_data(d)
@@ -477,6 +550,12 @@ def task_menu() -> list[tuple[str, str, dict[str, Any]]]:
         ("p.html", "caching-slow", {"who": "G"}, {"h": {"a": "g2"}}),
         ("cap.html", "caching-slow", {"arr": ["x"]}, {"h": {"a": "g3"}, "who": "H"}),
         ("leaf.html", "caching-slow", {"arr": [7]}, {"h": {"a": "g4"}, "g": "G"}),
+        ("p.html", "checking-cap1", {"who": "F", "h": {"a": 1}}),
+        ("sub/c.html", "checking-cap1", {"g": 8, "h": {"a": 9}}),
+        ("cap.html", "checking-cap1", {"who": "C", "arr": [1], "h": {"a": 7}}),
+        ("p.html", "checking-cap2", {"who": "F", "h": {"a": 1}}),
+        ("sub/c.html", "checking-cap2", {"g": 8, "h": {"a": 9}}),
+        ("cap.html", "checking-cap2", {"who": "C", "arr": [1], "h": {"a": 7}}),
     ]
 
 
@@ -488,7 +567,12 @@ def _menu_job(i: int) -> tuple[str, str, dict[str, Any], dict[str, Any] | None]:
 def _shared_envs(jobs: list[tuple]) -> dict[str, Any]:
     """One shared environment + caching loader per loader kind used by the task set."""
     mk = _loaders(_STATE["root"])
-    return {l: Environment(loader=mk[l]()) for l in {j[1] for j in jobs}}
+    envs = {l: Environment(loader=mk[l]()) for l in {j[1] for j in jobs}}
+    for l, env in envs.items():
+        if l.startswith("checking-"):
+            for entry in [j[0] for j in jobs if j[1] == l][: env.loader.cache.capacity]:
+                env.get_template(entry)  # warm: the cache is full before the first task runs
+    return envs
 
 
 def check_schedules(combo: tuple[int, ...], res: ShardResult | None, max_runs: int) -> list[tuple[str, Any, Any, Any]]:
@@ -573,6 +657,11 @@ def run_shard(shard) -> ShardResult:
             res.cases += 1
             for sig, case, exp, obs in check_analysis(i, res):
                 res.violation(sig, {"part": "C", "tier": tier, "seed": seed, "op": i, **case}, exp, obs)
+    elif kind == "E":
+        for c in limited_cases(tier)[shard[3] : shard[4]]:
+            res.cases += 1
+            for sig, case, exp, obs in check_limited(c, res):
+                res.violation(sig, {"part": "E", "tier": tier, "seed": seed, **case}, exp, obs)
     else:
         combo = shard[3]
         res.cases += 1
@@ -592,6 +681,9 @@ def replay(case: dict[str, Any]) -> list[dict[str, Any]]:
             c["prog"] = ps.totuple(c["prog"])
             c.pop("source", None)
         for sig, exp, obs in check_prog_case(c, None):
+            res.violation(sig, case, exp, obs)
+    elif part == "E":
+        for sig, c, exp, obs in check_limited((case["prefix"], tuple(case["kinds"]), tuple(case["lengths"])), None):
             res.violation(sig, case, exp, obs)
     elif part == "B":
         for sig, c, exp, obs in check_loader(case["loader"], None, only=None):
